@@ -1,10 +1,10 @@
 # orchestrator configuration of the C05 check (loaded by tools/props.py)
-from stack import FULL_STACK, FULL_DEPS
+from stack import FULL_STACK, FULL_DEPS, QUIC_STACK, QUIC_DEPS
 
 SPEC = dict(
     pkg="./harness/c05",
-    instrument=FULL_STACK,
-    deps=FULL_DEPS,
+    instrument=FULL_STACK + QUIC_STACK,
+    deps=FULL_DEPS + QUIC_DEPS,
     level="exploration",
     level_text=("seeded search over schedules x address sets x outcome scripts x caller populations of a real dialing swarm "
                 "on a simulated network: every lock, channel operation, select and goroutine start of dial_sync, dial_worker, "
@@ -18,7 +18,8 @@ SPEC = dict(
     technique="deterministic simulation: seeded lock-level scheduler over instrumented swarm stack on simnet, scripted per-address reachability, history oracles",
     design_ref="DESIGN.md section 5 (C05)",
     quick_s=50, thorough_s=600,
-    rule=("one run = one tape: strata (exact|filters, all-fail, slow worker, back-off rejoin, stalls, insecure|noise, latency), per-peer cap 1-8, FD cap "
+    rule=("one run = one tape: stratum QUIC (1/4: real QUIC transport over simulated UDP with served / dead / wrong-peer / "
+          "first-datagrams-lost addresses and drawn loss, duplication, reordering) | TCP + stubs; strata (exact|filters, all-fail, slow worker, back-off rejoin, stalls, insecure|noise, latency), per-peer cap 1-8, FD cap "
           "unset|1-4, two target peers with 0-8 / 0-3 addresses (TCP private/public/IPv6 with scripts succeed, refuse, black "
           "hole, accept-and-stall, reset/EOF/stall at the k-th I/O call, honest other peer, lying transport; QUIC-v1, "
           "WebTransport, WebSocket, relay stubs failing after a drawn delay or hanging; /dns4 names resolving to 0-2 "
@@ -31,15 +32,21 @@ SPEC = dict(
             "caller-left-with-cap-saturated", "backoff-refusal", "per-peer-cap-reached", "fd-cap-reached",
             "public-tcp-handshake-progress", "deadline-coincides-with-dial-end", "dial-started-with-dead-context",
             "wrong-peer-answered", "transport-lied", "dns-resolved", "liveness-asserted", "answer-due-asserted",
-            "shared-success-asserted",
+            "shared-success-asserted", "quic-dial-succeeded", "quic-dial-succeeded-after-lost-datagrams",
+            "quic-dead-address-handshake-timeout", "quic-dead-address-dial-timeout", "tcp-dial-staggered-behind-quic-in-flight",
+            "quic-dial-cancelled-when-tcp-won", "tcp-dial-cancelled-when-quic-won", "quic-hole-punch-dial",
+            "caller-got-quic-connection",
             "outcome-ok", "outcome-dial-error", "outcome-ctx-cancelled", "outcome-ctx-deadline"],
-    real=["swarm: dial_sync, dial_worker, limiter, swarm_dial, dial_ranker, dial_error, back-off, conns — instrumented",
+    real=["QUIC stratum: p2p/transport/quic, quicreuse, quic-go over simnet's UDP model — instrumented",
+          "swarm: dial_sync, dial_worker, limiter, swarm_dial, dial_ranker, dial_error, back-off, conns — instrumented",
           "tcp transport dial path behind a recording wrapper, upgrader, insecure / noise, multistream, yamux — instrumented",
           "pstoremem, eventbus — instrumented", "target peers: real simhost nodes (swarm + listeners)"],
     stubs=["wire: simnet TCP model (refuse, black hole, silent listener, reset/EOF/stall faults, latency)",
-           "scripted transport.Transport stubs for QUIC-v1, WebTransport, WebSocket, p2p-circuit (fail after d | hang until ctx ends)",
+           "scripted transport.Transport stubs for QUIC-v1 (TCP stratum only), WebTransport, WebSocket, p2p-circuit (fail after d | hang until ctx ends)",
+           "wire (QUIC stratum): simnet UDP model with drawn loss / duplication / latency and a scripted filter",
            "scripted network.MultiaddrDNSResolver", "recording wrapper around the real TCP transport (may dial the wrong peer on 'transport-lies' addresses)"],
-    assume=["virtual clock of testing/synctest", "the overlay rewrite preserves behaviour (./check overlaytest)",
+    assume=["crypto/rand and the global math/rand pinned per run in the QUIC stratum (simrand.Install, rand.Seed)",
+            "virtual clock of testing/synctest", "the overlay rewrite preserves behaviour (./check overlaytest)",
             "without scheduler stalls a runnable task never lets virtual time pass (used to recognise worker generations)"],
 )
 ENABLED = True
